@@ -522,6 +522,7 @@ def _execute(record: dict, rng: Optional[random.Random]) -> Outcome:
                 stall=dcfg["stall"],
                 kernel=kernel,
                 log_tasks=True,
+                real=dcfg.get("real"),
             )
             if kernel is not None:
                 K.activate(kernel)
